@@ -159,9 +159,12 @@ example : memberExt [104] [46, 72, 68, 82] ([105], some [46, 105, 109, 103]) = [
 theorem table_names_letters : ∀ r ∈ classTable, (r.filesTypes.map (·.1)).Nodup ∧
     ∀ t ∈ r.filesTypes, t.2.all (fun x => decide (lower x ≠ upper x)) = true := by decide
 
-/-- **sibling_name_same_files** — when the given extension is all-upper or all-lower, naming ANY sibling
-    the save produced yields the same file map: generic load through any written name finds all files. -/
-theorem sibling_name_same_files : ∀ r ∈ classTable, ∀ nm e n2 e2, (nm, some e) ∈ r.filesTypes →
+/-- **sibling_name_same_files_partial** — when the given extension is all-upper or all-lower, naming ANY sibling
+    the save produced yields the same file map: generic load through any written name finds all files.
+    PARTIAL: the full statement (the same for EVERY case mix `e'`, without the hypothesis
+    `e' = upper e' ∨ e' = lower e'`) is FALSE of the code — see `mixed_case_sibling_counterexample` below: the
+    sibling case rule maps every Mixed-case extension to the lower-case sibling and is not invertible. -/
+theorem sibling_name_same_files_partial : ∀ r ∈ classTable, ∀ nm e n2 e2, (nm, some e) ∈ r.filesTypes →
     (n2, some e2) ∈ r.filesTypes → n2 ≠ nm → ∀ stem e' z' : Str, lower e' = lower e →
     (e' = upper e' ∨ e' = lower e') → SfxSpelling r.suffixes z' →
     typesFilenames (stem ++ memberExt nm e' (n2, some e2) ++ z') r.filesTypes r.suffixes
@@ -298,7 +301,12 @@ theorem mgz_codec (stem e' : Str) (hg : goodStem stem = true) (he : lower e' = m
       to `to_bytes()`;
     * `to_bytes()` = the bytes `to_stream` wrote = the payload;
     * `from_filename(name)` after `to_filename(name)` hands the parser the same bytes as
-      `from_bytes(to_bytes())`. -/
+      `from_bytes(to_bytes())`.
+    NOTE (audit): here the payload is ONE abstract byte string shared by every route, so the conjuncts
+    `toBytes … = .ok payload` and `fromBytes r payload = .ok payload` are definitional glue (true of any row by
+    unfolding); the content of this theorem is the name / codec part.  The version in which the serialiser is a
+    function of the holder kind (write program on a random-access vs. a sequential compressed object) is
+    `routes_equal_holder` below, resting on `holders_agree`. -/
 theorem routes_equal (cd : Codecs) (hcd : ∀ c b, cd.decomp c (cd.comp c b) = b) :
     ∀ r ∈ classTable, r.serial = true → r.fmKind ≤ 1 → ∀ nm e, (nm, some e) ∈ r.filesTypes →
     ∀ (stem e' z' : Str) (payload : Bytes) (w : World), lower e' = lower e → SfxSpelling r.suffixes z' →
@@ -334,5 +342,352 @@ theorem multi_file_not_serialisable (cd : Codecs) (r : ClassRow) (h : r.filesTyp
   simp [toBytes, filemapFromIobase, h]
 
 example : rowNifti1Pair.filesTypes.length > 1 := by decide
+
+/-! ## the two opener classes; the whole load loop; histories over one process -/
+
+/-- `ImageOpener.compress_ext_map` is the base `Opener`'s plus `.mgz` (registered by mghformat.py), and no base key is `.mgz` in any case -/
+theorem table_opener_keys : openerKeys = baseOpenerKeys ++ [(mgzExt, 1)] ∧
+    (∀ q ∈ baseOpenerKeys, lower q.1 ≠ lower mgzExt) ∧ compressExtIcase = true := by decide
+
+/-- **two call sites, one rule** — the base `Opener` (streamlines, freesurfer.io, user code) and `ImageOpener`
+    (every image class) choose the SAME codec for every file name whatsoever, except names whose extension is
+    `.mgz` in some case mix, which `ImageOpener` gzips and the base class opens plainly.  (Each call scans its
+    OWN class's `compress_ext_map`; a table shared/cached across the two classes would break one of the two
+    conjuncts.) -/
+theorem opener_classes_agree_except_mgz (fn : Str) :
+    (lower (splitext fn).2 ≠ mgzExt →
+      openerCodec baseOpenerKeys compressExtIcase fn = openerCodec openerKeys compressExtIcase fn) ∧
+    (lower (splitext fn).2 = mgzExt →
+      openerCodec baseOpenerKeys compressExtIcase fn = 0 ∧ openerCodec openerKeys compressExtIcase fn = 1) := by
+  obtain ⟨hk, hb, hic⟩ := table_opener_keys
+  have hl : lower mgzExt = mgzExt := by decide
+  rw [hic, openerCodec_icase, openerCodec_icase, hk]
+  constructor
+  · intro h
+    rw [codecOfExt_append_ne _ _ _ _ (by rw [hl]; exact fun h' => h h'.symm)]
+  · intro h
+    have := codecOfExt_append_eq baseOpenerKeys mgzExt 1 (splitext fn).2 (by rw [hl, h]) hb
+    exact ⟨this.2, this.1⟩
+
+example : lower (splitext [118, 46, 77, 103, 90]).2 = mgzExt ∧ lower (splitext [118, 46, 71, 90]).2 ≠ mgzExt := by decide
+
+/-- **load_returns_writer** — the whole `load()` class loop (not only the extension test): for a class `r` at
+    ANY position of `all_image_classes`, every spelling of every one of its `valid_exts` is loaded AS `r`,
+    provided `r`'s own header sniff accepts (when it sniffs) and every EARLIER class that passes the extension
+    test sniffs and rejects the header.  The hypothesis on `sniffOK` is exactly the external fact the harness
+    measures (`sniff_table`). -/
+theorem load_returns_writer (sniffOK : Str → Bool) : ∀ pre r post, classTable = pre ++ r :: post →
+    ∀ v ∈ r.validExts, ∀ stem e' z' : Str, lower e' = lower v → SfxSpelling r.suffixes z' →
+    (r.sniffs = true → sniffOK r.name = true) →
+    (∀ r' ∈ pre, extOK r' (stem ++ e' ++ z') = true → r'.sniffs = true ∧ sniffOK r'.name = false) →
+    loadClass classTable sniffOK (stem ++ e' ++ z') = some r.name := by
+  intro pre r post ht v hv stem e' z' he hz hown hpre
+  have hr : r ∈ classTable := by rw [ht]; simp
+  have hx := load_finds_class r hr v hv stem e' z' he hz
+  unfold loadClass
+  rw [ht, find?_pre _ pre post r]
+  · rfl
+  · intro r' hr'
+    by_cases hxe : extOK r' (stem ++ e' ++ z') = true
+    · obtain ⟨h1, h2⟩ := hpre r' hr' hxe
+      simp only [h1, h2, Bool.not_true, Bool.or_false, Bool.and_false]
+    · have hf : extOK r' (stem ++ e' ++ z') = false := by simpa using hxe
+      simp only [hf, Bool.false_and]
+  · rw [hx]
+    by_cases hs : r.sniffs = true
+    · simp [hs, hown hs]
+    · simp [hs]
+
+example : classTable = [rowNifti1Pair] ++ rowNifti1Image :: [rowNifti2Pair, rowCifti2Image, rowNifti2Image, rowSpm2AnalyzeImage, rowSpm99AnalyzeImage, rowAnalyzeImage, rowMinc1Image, rowMinc2Image, rowMGHImage, rowPARRECImage, rowGiftiImage, rowAFNIImage] ∧
+   extOK rowNifti1Pair ([102] ++ [46, 78, 105, 105] ++ [46, 71, 122]) = false := by decide
+
+/-- **sniffFile_is_written_header** — the file `_sniff_meta_for` reads for an accepted name is one of the files the
+    save wrote: the `header` member's file (`stem ++ sibling-rule extension ++ suffix as given`) when the class has
+    one, the named file itself otherwise. -/
+theorem sniffFile_is_written_header : ∀ r ∈ classTable, ∀ nm e, (nm, some e) ∈ r.filesTypes →
+    ∀ stem e' z' : Str, lower e' = lower e → SfxSpelling r.suffixes z' →
+    ∃ m s, typesFilenames (stem ++ e' ++ z') r.filesTypes r.suffixes = .ok m ∧
+      sniffFile headerKey r (stem ++ e' ++ z') = .ok s ∧ s ∈ m.map (·.2) ∧
+      (∀ eh, (headerKey, some eh) ∈ r.filesTypes → s = stem ++ memberExt nm e' (headerKey, some eh) ++ z') ∧
+      ((∀ t ∈ r.filesTypes, t.1 ≠ headerKey) → s = stem ++ e' ++ z') := by
+  intro r hr nm e hm stem e' z' he hz
+  have wf := table_wf r hr
+  obtain ⟨hnd, _⟩ := table_names_letters r hr
+  have hacc := typesFilenames_accepted wf hm stem e' z' he hz
+  by_cases hh : ∃ t ∈ r.filesTypes, t.1 = headerKey
+  · obtain ⟨⟨k, x⟩, ht, hk⟩ := hh
+    simp only at hk; subst hk
+    have hl := lookup_member r.filesTypes hnd (fun t => stem ++ memberExt nm e' t ++ z') headerKey x ht
+    refine ⟨_, stem ++ memberExt nm e' (headerKey, x) ++ z', hacc, by simp only [sniffFile, hacc, hl]; rfl, ?_, ?_, ?_⟩
+    · simp only [List.map_map, List.mem_map]
+      exact ⟨(headerKey, x), ht, rfl⟩
+    · intro eh heh
+      have : x = some eh := snd_unique_of_nodup_fst hnd ht heh
+      subst this; rfl
+    · intro hno; exact absurd rfl (hno _ ht)
+  · have hno : ∀ t ∈ r.filesTypes, t.1 ≠ headerKey := fun t ht h => hh ⟨t, ht, h⟩
+    have hl := lookup_absent r.filesTypes (fun t => stem ++ memberExt nm e' t ++ z') headerKey hno
+    refine ⟨_, stem ++ e' ++ z', hacc, by simp only [sniffFile, hacc, hl]; rfl, ?_, ?_, ?_⟩
+    · simp only [List.map_map, List.mem_map]
+      refine ⟨(nm, some e), hm, ?_⟩
+      simp [memberExt]
+    · intro eh heh; exact absurd rfl (hno _ heh)
+    · intro _; rfl
+
+example : sniffFile headerKey rowNifti1Pair ([102] ++ [46, 73, 77, 71] ++ [46, 71, 90]) = .ok ([102] ++ [46, 72, 68, 82] ++ [46, 71, 90]) := by rfl
+
+
+/-- class names identify rows of the regenerated table -/
+theorem table_findRow : ∀ r ∈ classTable, findRow classTable r.name = some r := by decide
+
+/-- **save_then_load_returns_writer** — end to end on the history model, in a fresh directory: `nib.save(img_of r,
+    name)` for any accepted spelling writes exactly `stem ++ member extension ++ suffix` for every member, each
+    in the codec `ImageOpener` picks from its name, and `nib.load(name)` then finds every file it needs, reads
+    each in the codec it was written in, and returns class `r` — under the same sniff hypothesis as
+    `load_returns_writer` (stated on the measured table `sniffTab`: who accepts the header `r` writes). -/
+theorem save_then_load_returns_writer (env : Env) (htab : env.table = classTable) (hhk : env.headerKey = headerKey) :
+    ∀ pre r post, classTable = pre ++ r :: post → r.rw = true →
+    ∀ nm e, (nm, some e) ∈ r.filesTypes → e ≠ [46, 109, 97, 116] →
+    ∀ stem e' z' : Str, lower e' = lower e → SfxSpelling r.suffixes z' →
+    (r.sniffs = true → ((env.sniffTab.lookup r.name).getD []).contains r.name = true) →
+    (∀ r' ∈ pre, extOK r' (stem ++ e' ++ z') = true →
+        r'.sniffs = true ∧ ((env.sniffTab.lookup r.name).getD []).contains r'.name = false) →
+    (runHist env [] [.save r.name (stem ++ e' ++ z'), .load (stem ++ e' ++ z')]).2 =
+      [.saved r.name (r.filesTypes.map fun t =>
+          (stem ++ memberExt nm e' t ++ z', openerCodec env.imgKeys env.icase (stem ++ memberExt nm e' t ++ z'))),
+       .loaded (.cls r.name)] := by
+  intro pre r post ht hrw nm e hm hmat stem e' z' he hz hown hpre
+  have hr : r ∈ classTable := by rw [ht]; simp
+  have hk := table_rw_modelled r hr hrw
+  obtain ⟨m, hfm, hm_eq, hlk⟩ := named_file_is_written_generic r (table_wf r hr) hk (table_mgz_fresh r hr) hm stem e' z' he hz
+  obtain ⟨m', s, htf, hsf, hs_mem, _, _⟩ := sniffFile_is_written_header r hr nm e hm stem e' z' he hz
+  have hm' : m' = m := by
+    have := typesFilenames_accepted (table_wf r hr) hm stem e' z' he hz
+    rw [this] at htf; rw [hm_eq]; exact (Except.ok.inj htf).symm
+  subst hm'
+  have hnameL : stem ++ e' ++ z' ∈ m'.map (·.2) := by
+    rw [hm_eq, List.map_map, List.mem_map]
+    exact ⟨(nm, some e), hm, by simp [memberExt]⟩
+  have hobs : (r.filesTypes.map fun t =>
+      (stem ++ memberExt nm e' t ++ z', openerCodec env.imgKeys env.icase (stem ++ memberExt nm e' t ++ z')))
+      = m'.map fun kv => (kv.2, openerCodec env.imgKeys env.icase kv.2) := by
+    rw [hm_eq, List.map_map]; rfl
+  rw [hobs]
+  have hx := load_finds_writer r hr hrw nm e hm hmat stem e' z' he hz
+  clear hobs hm_eq hlk
+  generalize stem ++ e' ++ z' = name at *
+  -- the save step
+  have hsave : histSave env r.name name = some (r.name, m'.map fun kv => (kv.2, openerCodec env.imgKeys env.icase kv.2)) := by
+    simp only [histSave, htab, table_findRow r hr, saveClass, hfm]
+  have hfiles : (m'.map fun kv => (kv.2, openerCodec env.imgKeys env.icase kv.2))
+      = (m'.map (·.2)).map fun f => (f, openerCodec env.imgKeys env.icase f) := by
+    rw [List.map_map]; rfl
+  have hlook : ∀ x, ((m'.map fun kv => (kv.2, openerCodec env.imgKeys env.icase kv.2)).foldl
+      (fun acc fc => pfsPut acc fc.1 ⟨r.name, fc.2⟩) ([] : PFS)).lookup x
+        = if x ∈ m'.map (·.2) then some ⟨r.name, openerCodec env.imgKeys env.icase x⟩ else none := by
+    intro x; rw [hfiles, foldl_put_lookup]; rfl
+  generalize hfs : (m'.map fun kv => (kv.2, openerCodec env.imgKeys env.icase kv.2)).foldl
+      (fun acc fc => pfsPut acc fc.1 ⟨r.name, fc.2⟩) ([] : PFS) = fs' at hlook
+  -- the load step
+  have hsn : ∀ r' : ClassRow, histSniff env fs' r' name = true →
+      ((env.sniffTab.lookup r.name).getD []).contains r'.name = true := by
+    intro r' h
+    unfold histSniff at h
+    cases hs' : sniffFile env.headerKey r' name with
+    | error _ => rw [hs'] at h; simp at h
+    | ok s' =>
+      rw [hs'] at h
+      simp only [hlook s'] at h
+      by_cases hmem : s' ∈ m'.map (·.2)
+      · simp only [hmem, if_true, Bool.and_eq_true] at h; exact h.2
+      · simp [hmem] at h
+  have hfind : env.table.find? (fun r' => extOK r' name && (!r'.sniffs || histSniff env fs' r' name)) = some r := by
+    rw [htab, ht]
+    apply find?_pre
+    · intro r' hr'
+      by_cases hxe : extOK r' name = true
+      · obtain ⟨h1, h2⟩ := hpre r' hr' hxe
+        have : histSniff env fs' r' name = false := by
+          cases hh : histSniff env fs' r' name with
+          | false => rfl
+          | true => rw [hsn r' hh] at h2; cases h2
+        simp only [h1, this, Bool.not_true, Bool.or_false, Bool.and_false]
+      · have hf : extOK r' name = false := by simpa using hxe
+        simp only [hf, Bool.false_and]
+    · rw [hx]
+      by_cases hs : r.sniffs = true
+      · have : histSniff env fs' r name = true := by
+          unfold histSniff
+          rw [hhk, hsf]
+          simp only [hlook s, if_pos hs_mem, decide_true, Bool.true_and]
+          exact hown hs
+        simp [hs, this]
+      · simp [hs]
+  have hload : histLoad env fs' name = .cls r.name := by
+    unfold histLoad
+    rw [hlook name, if_pos hnameL]
+    simp only [Option.isNone_some, Bool.false_eq_true, if_false, hfind, hfm]
+    have h1 : m'.all (fun kv => env.optional.contains kv.1 || (fs'.lookup kv.2).isSome) = true := by
+      rw [List.all_eq_true]; intro kv hkv
+      have : kv.2 ∈ m'.map (·.2) := List.mem_map.2 ⟨kv, hkv, rfl⟩
+      simp [hlook kv.2, this]
+    rw [if_pos h1]
+    split
+    · rfl
+    · rename_i hneg
+      exfalso; apply hneg
+      rw [List.all_eq_true]; intro kv hkv
+      have : kv.2 ∈ m'.map (·.2) := List.mem_map.2 ⟨kv, hkv, rfl⟩
+      simp [hlook kv.2, this]
+  simp only [runHist, step, hsave, hfs, hload]
+
+
+/-- … and this is independent of any earlier use of `Opener` / `ImageOpener` on unrelated names in the same
+    process, in any order: the last two observations are those of the fresh process. -/
+theorem save_load_after_any_opener_calls (env : Env) (htab : env.table = classTable) (hhk : env.headerKey = headerKey)
+    (h : List Op) (hall : ∀ o ∈ h, o.isOpener = true) :
+    ∀ pre r post, classTable = pre ++ r :: post → r.rw = true →
+    ∀ nm e, (nm, some e) ∈ r.filesTypes → e ≠ [46, 109, 97, 116] →
+    ∀ stem e' z' : Str, lower e' = lower e → SfxSpelling r.suffixes z' →
+    (r.sniffs = true → ((env.sniffTab.lookup r.name).getD []).contains r.name = true) →
+    (∀ r' ∈ pre, extOK r' (stem ++ e' ++ z') = true →
+        r'.sniffs = true ∧ ((env.sniffTab.lookup r.name).getD []).contains r'.name = false) →
+    (runHist env [] (h ++ [.save r.name (stem ++ e' ++ z'), .load (stem ++ e' ++ z')])).2.drop h.length =
+      [.saved r.name (r.filesTypes.map fun t =>
+          (stem ++ memberExt nm e' t ++ z', openerCodec env.imgKeys env.icase (stem ++ memberExt nm e' t ++ z'))),
+       .loaded (.cls r.name)] := by
+  intro pre r post ht hrw nm e hm hmat stem e' z' he hz hown hpre
+  rw [runHist_append, openers_keep_state env [] h hall]
+  simp only
+  rw [List.drop_append_of_le_length (by rw [runHist_length]; exact Nat.le_refl _)]
+  rw [List.drop_eq_nil_of_le (by rw [runHist_length]; exact Nat.le_refl _), List.nil_append]
+  exact save_then_load_returns_writer env htab hhk pre r post ht hrw nm e hm hmat stem e' z' he hz hown hpre
+
+/-- the environment of the examples: the regenerated tables, Nifti2Image's header accepted by Nifti2Image and
+    Nifti2Pair's sniff only (what `sniff_table` measures) -/
+def exEnv : Env :=
+  { table := classTable, baseKeys := baseOpenerKeys, imgKeys := openerKeys, icase := compressExtIcase,
+    saveSfx := saveSuffixes, toPair := [], toSingle := [], imgHdr := [], nii := [], headerKey := headerKey,
+    optional := [], sniffTab := [(rowNifti2Image.name, [rowNifti2Pair.name, rowNifti2Image.name])] }
+
+-- non-vacuity: Nifti2Image saved as `f.NiI.gZ` after `Opener('notes.txt')`: three earlier classes pass the extension
+-- test for `.nii` or not at all, sniff, and reject
+example : classTable = [rowNifti1Pair, rowNifti1Image, rowNifti2Pair, rowCifti2Image] ++ rowNifti2Image ::
+      [rowSpm2AnalyzeImage, rowSpm99AnalyzeImage, rowAnalyzeImage, rowMinc1Image, rowMinc2Image, rowMGHImage,
+       rowPARRECImage, rowGiftiImage, rowAFNIImage] ∧ rowNifti2Image.rw = true ∧
+    ([105, 109, 97, 103, 101], some [46, 110, 105, 105]) ∈ rowNifti2Image.filesTypes ∧
+    lower [46, 78, 105, 73] = lower [46, 110, 105, 105] ∧
+    (rowNifti2Image.sniffs = true → ((exEnv.sniffTab.lookup rowNifti2Image.name).getD []).contains rowNifti2Image.name = true) ∧
+    (∀ r' ∈ [rowNifti1Pair, rowNifti1Image, rowNifti2Pair, rowCifti2Image],
+        extOK r' ([102] ++ [46, 78, 105, 73] ++ [46, 103, 90]) = true →
+        r'.sniffs = true ∧ ((exEnv.sniffTab.lookup rowNifti2Image.name).getD []).contains r'.name = false) ∧
+    extOK rowNifti1Image ([102] ++ [46, 78, 105, 73] ++ [46, 103, 90]) = true := by decide
+example : (runHist exEnv [] [.opener false [110, 46, 116, 120, 116],
+      .save rowNifti2Image.name ([102] ++ [46, 78, 105, 73] ++ [46, 103, 90]),
+      .load ([102] ++ [46, 78, 105, 73] ++ [46, 103, 90])]).2 =
+    [.codec 0, .saved rowNifti2Image.name [([102] ++ [46, 78, 105, 73] ++ [46, 103, 90], 1)],
+     .loaded (.cls rowNifti2Image.name)] := by decide
+
+/-! ## no process-wide state -/
+
+/-- **hist_independent_of_opener_calls** — deleting every plain `Opener` / `ImageOpener` use from a history (of
+    saves, loads, renames and opener uses, in any order, from any file system) changes neither the final file
+    system nor the observation of any remaining step.  In the model this holds because a history threads the
+    FILE SYSTEM only — the statement is the model-level form of "the code keeps no class- or module-level state
+    between calls"; its content is carried by the `hist` correspondence stream, which runs every history in a
+    fresh interpreter and compares each step with this stateless model. -/
+theorem hist_independent_of_opener_calls (env : Env) (fs : PFS) (h : List Op) :
+    (runHist env fs (h.filter (fun o => !o.isOpener))).1 = (runHist env fs h).1 ∧
+    (runHist env fs (h.filter (fun o => !o.isOpener))).2 =
+      ((h.zip (runHist env fs h).2).filter (fun p => !p.1.isOpener)).map (·.2) :=
+  hist_drop_openers env fs h
+
+example : ([Op.opener false [110], .save [77] [102], .opener true [118]].filter (fun o => !o.isOpener)) = [.save [77] [102]] := by decide
+
+/-- **save_obs_independent_of_history** — what a save reports (writing class, files, codecs) after ANY history from
+    ANY file system equals what it reports as the first call of a fresh process; likewise for an opener use.
+    (Glue over the model's definition of `step`: saves and opener uses do not read the state.) -/
+theorem save_obs_independent_of_history (env : Env) (fs : PFS) (h : List Op) (c n : Str) (b : Bool) :
+    (runHist env fs (h ++ [.save c n])).2.getLast? = some (step env [] (.save c n)).2 ∧
+    (runHist env fs (h ++ [.opener b n])).2.getLast? = some (step env [] (.opener b n)).2 := by
+  constructor
+  · rw [runHist_append, save_obs_any_state env [] (runHist env fs h).1]
+    simp [runHist]
+  · rw [runHist_append]
+    simp [runHist, step]
+
+/-- a file written by one spelling and renamed to another case mix of the same extension is still read in the
+    codec it was written in: the codec is a function of the lower-cased extension only -/
+theorem codec_case_insensitive (keys : List (Str × Nat)) (n1 n2 : Str)
+    (h : lower (splitext n1).2 = lower (splitext n2).2) :
+    openerCodec keys true n1 = openerCodec keys true n2 := by
+  rw [openerCodec_icase, openerCodec_icase]
+  exact codecOfExt_congr keys h
+
+example : lower (splitext [102, 46, 77, 103, 90]).2 = lower (splitext [103, 46, 109, 71, 122]).2 := by decide
+
+/-- The sibling rule is NOT invertible for a Mixed-case extension (why `sibling_name_same_files_partial` needs its
+    case hypothesis): saving a pair as `f.HdR` writes `f.HdR` + `f.img`; generic load of the written `f.img` then
+    looks for the header `f.hdr`, which does not exist on a case-sensitive file system. -/
+theorem mixed_case_sibling_counterexample :
+    typesFilenames [102, 46, 72, 100, 82] rowNifti1Pair.filesTypes rowNifti1Pair.suffixes
+      = .ok [([105, 109, 97, 103, 101], [102, 46, 105, 109, 103]), ([104, 101, 97, 100, 101, 114], [102, 46, 72, 100, 82])] ∧
+    typesFilenames [102, 46, 105, 109, 103] rowNifti1Pair.filesTypes rowNifti1Pair.suffixes
+      = .ok [([105, 109, 97, 103, 101], [102, 46, 105, 109, 103]), ([104, 101, 97, 100, 101, 114], [102, 46, 104, 100, 114])] ∧
+    ([102, 46, 104, 100, 114] : Str) ≠ [102, 46, 72, 100, 82] := by decide
+
+
+/-! ## the serialiser as a write program: the holder kinds agree -/
+
+/-- **holders_agree** — a write program (`write` / `seek_tell(…, write0=True)`) whose seeks never go backwards and
+    that does not end in a dangling forward seek leaves the SAME logical bytes on a sequential compressed writer
+    (gzip / bz2 / zstd: zero-filling forward seeks) as on a random-access object (`BytesIO`, plain file) — for every
+    program, by induction with the invariant `out = buf ++ zeros (pos - |buf|)`. -/
+theorem holders_agree (p : List WOp) (hm : mono 0 p = true) (hc : complete p = true) :
+    seqRun p = some (raRun p) ∧ ∀ c, holderBytes c p = some (raRun p) := by
+  have h := holders_agree_lemma p hm hc
+  refine ⟨h, fun c => ?_⟩
+  unfold holderBytes
+  split
+  · rfl
+  · exact h
+
+example : mono 0 [.write [1, 2], .seekTo 5, .write [7]] = true ∧ complete [.write [1, 2], .seekTo 5, .write [7]] = true ∧
+    raRun [.write [1, 2], .seekTo 5, .write [7]] = [1, 2, 0, 0, 0, 7] := by decide
+
+/-- why both hypotheses are needed: after a BACKWARD seek the random-access holders overwrite while the compressed
+    writers raise; after a DANGLING forward seek the compressed writers have written the zeros, `BytesIO` / a plain
+    file have not. -/
+theorem backward_and_dangling_seek_counterexamples :
+    (raRun [.write [1, 2, 3], .seekTo 1, .write [9]] = [1, 9, 3] ∧ seqRun [.write [1, 2, 3], .seekTo 1, .write [9]] = none) ∧
+    (raRun [.write [1], .seekTo 3] = [1] ∧ seqRun [.write [1], .seekTo 3] = some [1, 0, 0]) := by decide
+
+/-- **routes_equal_holder** — `routes_equal` with the serialiser a FUNCTION OF THE HOLDER KIND: for every
+    serialisable class, accepted name and monotone complete write program `p`, `to_filename(name)` runs `p` on the
+    object `ImageOpener` opens for the name (random access if the codec is "plain", sequential otherwise), stores the
+    result under EXACTLY `name`, and what is stored decompresses to `to_bytes()` (= `p` on a fresh `BytesIO`). -/
+theorem routes_equal_holder (cd : Codecs) (hcd : ∀ c b, cd.decomp c (cd.comp c b) = b) :
+    ∀ r ∈ classTable, r.serial = true → r.fmKind ≤ 1 → ∀ nm e, (nm, some e) ∈ r.filesTypes →
+    ∀ (stem e' z' : Str) (p : List WOp) (w : World), lower e' = lower e → SfxSpelling r.suffixes z' →
+    mono 0 p = true → complete p = true →
+    let name := stem ++ e' ++ z'
+    let c := openerCodec openerKeys compressExtIcase name
+    ∃ w' b, toFilenameP cd openerKeys compressExtIcase r p w name = .ok w' ∧
+      toBytesP r p = .ok b ∧ (fsRead w'.fs name).map (cd.decomp c) = some b := by
+  intro r hr hser hk nm e hm stem e' z' p w he hz hmo hco
+  obtain ⟨nm0, e0, hft⟩ := table_serial_single r hr hser
+  obtain ⟨m, h1, h2, _⟩ := named_file_is_written_generic r (table_wf r hr) hk (table_mgz_fresh r hr) hm stem e' z' he hz
+  have hnm : nm = nm0 := by rw [hft] at hm; simp at hm; exact hm.1
+  have hm' : m = [(nm0, stem ++ e' ++ z')] := by
+    rw [h2, hft]; simp [memberExt, hnm]
+  subst hm'
+  clear h2
+  generalize stem ++ e' ++ z' = name at h1 ⊢
+  have hb := (holders_agree p hmo hco).2 (openerCodec openerKeys compressExtIcase name)
+  refine ⟨{ w with fs := fsWrite w.fs name (cd.comp (openerCodec openerKeys compressExtIcase name) (raRun p)) },
+    raRun p, by simp only [toFilenameP, h1, hb], ?_, ?_⟩
+  · simp [toBytesP, filemapFromIobase, hft]
+  · simp [fsRead, fsWrite, hcd]
+
 
 end Nb.C12
